@@ -18,6 +18,7 @@ from ..signal import Signal, PortDir, Visibility
 from ..slice import Slice
 from ..concat import Concat
 from ..literal import Literal
+from ..scalar import Scalar
 from .. import primitives
 from ..primitives import Primitive, Vpulse
 
@@ -163,7 +164,8 @@ class ProtoImporter:
                 # Import a VLSIR primitive to an ideal element, and convert its parameters
                 target = import_vlsir_primitive(ref.external)
                 remapped_params = import_primitive_params(target, params)
-                params = target.Params(**remapped_params)
+                literal_names = import_primitive_params(target, literal_valued(pinst.parameters))
+                params = target.Params(**keep_literals(target, remapped_params, literal_names))
 
             elif ref.external.domain in (
                 "hdl21.primitives",
@@ -171,7 +173,7 @@ class ProtoImporter:
             ):
                 # Retrieve the Primitive from `hdl21.primitives`, and convert its parameters
                 target = import_hdl21_primitive(ref.external)
-                params = target.Params(**params)
+                params = target.Params(**keep_literals(target, params, literal_valued(pinst.parameters)))
 
             else:  # Externally-defined `ExternalModule`
                 # These must be declared in our `Package` being imported. Look up its header-info from `ext_modules`.
@@ -257,6 +259,23 @@ def import_vlsir_primitive(pref: vlsir.utils.QualifiedName) -> Primitive:
         msg = f"Attempt to import invalid `hdl21.primitive` {pref.external.name}"
         raise RuntimeError(msg)
     return prim
+
+
+def literal_valued(pparams: List[vlsir.Param]) -> Dict[str, Any]:
+    """The parameters of `pparams` which are stored as `literal`s, by name."""
+    return {p.name: True for p in pparams if p.value.WhichOneof("value") == "literal"}
+
+
+def keep_literals(prim: Primitive, params: Dict[str, Any], literals: Dict[str, Any]) -> Dict[str, Any]:
+    """Literal-valued parameters of `Scalar` type are imported as `Literal`s.
+    Left as strings, ones whose text looks like a number (`Literal("100")`) would be converted into `Prefixed` numbers."""
+    scalar_fields = {
+        name for name, param in prim.Params.__params__.items() if param.dtype in (Scalar, Optional[Scalar])
+    }
+    return {
+        name: Literal(text=val) if (literals.get(name) and name in scalar_fields and isinstance(val, str)) else val
+        for name, val in params.items()
+    }
 
 
 def import_parameters(pparams: List[vlsir.Param]) -> Dict[str, Any]:
